@@ -23,6 +23,8 @@ def main() -> int:
     ap.add_argument("--tier", default="quick")
     ap.add_argument("--budget", default="40")
     ap.add_argument("--dir", default=os.path.join(VERIF, "mutants"))
+    ap.add_argument("--json", default="", help="write results to this file")
+    ap.add_argument("--seed", default="", help="VERIF_SEED for the check runs")
     a = ap.parse_args()
     base = "/dev/shm" if os.path.isdir("/dev/shm") else tempfile.gettempdir()
     results = []
@@ -50,7 +52,10 @@ def main() -> int:
                 env["VSIM_REPO_SRC"] = os.path.join(scratch, "src")
                 env["VSIM_NO_SELFTEST"] = "1"
                 env["VSIM_NO_MINIMISE"] = os.environ.get("VSIM_NO_MINIMISE", "1")
-                env["VSIM_BUDGET_S"] = a.budget
+                if a.budget not in ("0", ""):
+                    env["VSIM_BUDGET_S"] = a.budget  # 0 = the tier's own budget
+                if a.seed:
+                    env["VERIF_SEED"] = a.seed
                 t0 = time.time()
                 r = subprocess.run([os.path.join(VERIF, "check"), chk, "--tier", a.tier, "--no-evidence"], env=env, capture_output=True, text=True)
                 viol = [ln for ln in r.stdout.splitlines() if ln.startswith("VIOLATION")]
@@ -60,6 +65,11 @@ def main() -> int:
                 print("%-50s %-4s %s %s" % (name, chk, status, results[-1][3]), flush=True)
         finally:
             shutil.rmtree(scratch, ignore_errors=True)
+    if a.json:
+        import json
+
+        with open(a.json, "w") as f:
+            json.dump([{"mutant": r[0], "check": r[1], "status": r[2], "detail": r[3]} for r in results], f, indent=1)
     missed = [r for r in results if r[2] != "CAUGHT"]
     print("\n%d mutants run, %d caught, %d not caught" % (len(results), len(results) - len(missed), len(missed)))
     return 1 if missed else 0
